@@ -4,6 +4,7 @@ package main
 
 import (
 	"fmt"
+	"strings"
 	"go/types"
 	"sort"
 
@@ -118,6 +119,27 @@ func buildThrottleComponent(w *World, fault bool) (*throttleModel, error) {
 	c.OnEntry = func(s *tsState, e *Entry) {
 		if m.recFld >= 0 {
 			s.ghosts["recAtEntry"] = int8(s.fields[m.recFld].n)
+		}
+	}
+	// provenance tokens for the client's arguments; what a previous StartRecording remembered becomes stale
+	// when a new StartRecording call begins
+	c.BindParams = func(s *tsState, fr *frame, e *Entry) {
+		switch e.Name {
+		case "StartRecording":
+			for fi, v := range s.fields {
+				if v.k == kTok && !strings.HasSuffix(v.tag, ".stale") {
+					v.tag += ".stale"
+					s.fields[fi] = v
+				}
+			}
+			if len(e.Fn.Params) == 3 {
+				fr.regs[e.Fn.Params[1]] = val{k: kTok, n: 11, tag: "background"}
+				fr.regs[e.Fn.Params[2]] = val{k: kTok, n: 12, tag: "threshold"}
+			}
+		case "WriteFrame":
+			if len(e.Fn.Params) == 2 {
+				fr.regs[e.Fn.Params[1]] = val{k: kTok, n: 13, tag: "frame"}
+			}
 		}
 	}
 	c.OnObjCall = m.onObjCall
